@@ -4,18 +4,57 @@ import MoreExec.Proofs.Retry.Lists
 
 namespace MoreExec.Retry
 
+/-- the window of `_submit_now` between its pop and its append: the future of the in-flight job was handed out, no cancel
+scan has run on it (and none can: the submit thread holds its lock), and it has no job in the list -/
+def SG (s : St) : Prop :=
+  ∀ nj, s.submitting = some nj → nj.fut ∈ s.submitted ∧ nj.fut ∉ s.cancelReq ∧ (∀ x ∈ s.jobs, x.fut ≠ nj.fut)
+
 structure Inv1 (s : St) : Prop where
   r1 : (s.jobs.map (·.fut)).Nodup
   sub : ∀ j ∈ s.jobs, j.fut ∈ s.submitted
   csub : ∀ f ∈ s.cancelReq, f ∈ s.submitted
   stop : ∀ f ∈ s.cancelReq, ∀ j ∈ s.jobs, j.fut = f → j.stop = true
+  sg : SG s
 
-theorem inv1_init : Inv1 init := by constructor <;> simp [init]
+theorem inv1_init : Inv1 init := by constructor <;> simp [init, SG]
 
 theorem mem_erase_of {l : List Job} {j x : Job} (h : x ∈ l.erase j) : x ∈ l := List.mem_of_mem_erase h
 
+/-- steps that keep the window, the cancel requests, and add no job of a new future -/
+theorem sg_mono {s s' : St} (h : SG s) (e1 : s'.submitting = s.submitting) (e2 : ∀ f ∈ s.submitted, f ∈ s'.submitted)
+    (e3 : s'.cancelReq = s.cancelReq) (e4 : ∀ x ∈ s'.jobs, ∃ y ∈ s.jobs, y.fut = x.fut) : SG s' := by
+  intro nj hnj
+  rw [e1] at hnj
+  obtain ⟨a, b, c⟩ := h nj hnj
+  refine ⟨e2 _ a, by rw [e3]; exact b, ?_⟩
+  intro x hx
+  obtain ⟨y, hy, hyx⟩ := e4 x hx
+  rw [← hyx]; exact c y hy
+
+theorem holdsF_false_submitting {s : St} {f : Nat} (h : holdsF s f = false) : ∀ nj, s.submitting = some nj → nj.fut ≠ f := by
+  intro nj hnj
+  simp only [holdsF, cancellingF, hnj, Option.any_some, Bool.or_eq_false_iff] at h
+  simpa using h.2
+
+/-- the scan section of a cancel() on f: needs f's lock, so f is not the future in the window -/
+theorem sg_cancel {s s' : St} (h : SG s) (f : Nat) (hf : holdsF s f = false) (e1 : s'.submitting = s.submitting)
+    (e2 : s'.submitted = s.submitted) (e3 : s'.cancelReq = s.cancelReq ++ [f])
+    (e4 : ∀ x ∈ s'.jobs, ∃ y ∈ s.jobs, y.fut = x.fut) : SG s' := by
+  intro nj hnj
+  rw [e1] at hnj
+  obtain ⟨a, b, c⟩ := h nj hnj
+  refine ⟨by rw [e2]; exact a, ?_, ?_⟩
+  · rw [e3]; simp only [List.mem_append, List.mem_singleton, not_or]
+    exact ⟨b, holdsF_false_submitting hf nj hnj⟩
+  · intro x hx
+    obtain ⟨y, hy, hyx⟩ := e4 x hx
+    rw [← hyx]; exact c y hy
+
+theorem erase_sub {l : List Job} (j : Job) : ∀ x ∈ l.erase j, ∃ y ∈ l, y.fut = x.fut :=
+  fun x hx => ⟨x, mem_erase_of hx, rfl⟩
+
 theorem inv1_step (s : St) (a : Act) (s' : St) (hi : Inv1 s) (h : step s a = some s') : Inv1 s' := by
-  obtain ⟨h1, h2, h3, h4⟩ := hi
+  obtain ⟨h1, h2, h3, h4, h5⟩ := hi
   cases a with
   | submit f =>
     simp only [step] at h
@@ -23,7 +62,7 @@ theorem inv1_step (s : St) (a : Act) (s' : St) (hi : Inv1 s) (h : step s a = som
     · cases h
     · rename_i hf
       cases h
-      refine ⟨?_, ?_, ?_, ?_⟩
+      refine ⟨?_, ?_, ?_, ?_, ?_⟩
       · simp only [List.map_append, List.map_cons, List.map_nil]
         refine List.nodup_append.mpr ⟨h1, by simp, ?_⟩
         intro a ha b hb
@@ -41,40 +80,69 @@ theorem inv1_step (s : St) (a : Act) (s' : St) (hi : Inv1 s) (h : step s a = som
         cases hj with
         | inl hj => exact h4 g hg j hj e
         | inr hj => subst hj; simp only at e; subst e; exact absurd (h3 _ hg) hf
+      · intro nj hnj
+        obtain ⟨a, b, c⟩ := h5 nj hnj
+        refine ⟨List.mem_append_left _ a, b, ?_⟩
+        intro x hx
+        simp only [List.mem_append, List.mem_singleton] at hx
+        cases hx with
+        | inl hx => exact c x hx
+        | inr hx => subst hx; simp only; exact fun e => hf (e ▸ a)
   | submitNow j =>
     simp only [step] at h
     split at h
     · rename_i hg
-      obtain ⟨hj, hdel, hstop, _, _⟩ := hg
+      obtain ⟨hj, hdel, hstop, _, _, hnone⟩ := hg
       split at h
       · cases h
-        exact ⟨nodup_map_erase j h1, fun x hx => h2 x (mem_erase_of hx), h3, fun g hg x hx e => h4 g hg x (mem_erase_of hx) e⟩
+        exact ⟨nodup_map_erase j h1, fun x hx => h2 x (mem_erase_of hx), h3, fun g hg x hx e => h4 g hg x (mem_erase_of hx) e,
+               sg_mono h5 rfl (fun _ hf => hf) rfl (erase_sub j)⟩
       · cases h
-        refine ⟨nodup_erase_append h1 hj rfl, ?_, h3, ?_⟩
-        · intro x hx
-          simp only [List.mem_append, List.mem_singleton] at hx
-          cases hx with
-          | inl hx => exact h2 x (mem_erase_of hx)
-          | inr hx => subst hx; exact h2 j hj
-        · intro g hg x hx e
-          simp only [List.mem_append, List.mem_singleton] at hx
-          cases hx with
-          | inl hx => exact h4 g hg x (mem_erase_of hx) e
-          | inr hx =>
-            subst hx; simp only at e
-            have := h4 g hg j hj e
-            rw [hstop] at this; cases this
+        refine ⟨nodup_map_erase j h1, fun x hx => h2 x (mem_erase_of hx), h3, fun g hg x hx e => h4 g hg x (mem_erase_of hx) e, ?_⟩
+        intro nj hnj
+        simp only [Option.some.injEq] at hnj
+        subst hnj
+        refine ⟨h2 j hj, ?_, fun x hx => fut_ne_of_mem_erase (j := j) h1 hj hx⟩
+        intro hc
+        have := h4 j.fut hc j hj rfl
+        rw [hstop] at this; cases this
+    · cases h
+  | submitApp =>
+    simp only [step] at h
+    split at h
+    · rename_i nj hnj
+      cases h
+      obtain ⟨a, b, c⟩ := h5 nj hnj
+      refine ⟨?_, ?_, h3, ?_, ?_⟩
+      · simp only [List.map_append, List.map_cons, List.map_nil]
+        refine List.nodup_append.mpr ⟨h1, by simp, ?_⟩
+        intro a ha b hb
+        simp only [List.mem_singleton] at hb; subst hb
+        obtain ⟨x, hx, rfl⟩ := List.mem_map.mp ha
+        exact c x hx
+      · intro x hx
+        simp only [List.mem_append, List.mem_singleton] at hx
+        cases hx with
+        | inl hx => exact h2 x hx
+        | inr hx => subst hx; exact a
+      · intro g hg x hx e
+        simp only [List.mem_append, List.mem_singleton] at hx
+        cases hx with
+        | inl hx => exact h4 g hg x hx e
+        | inr hx => subst hx; subst e; exact absurd hg b
+      · intro nj' hnj'; cases hnj'
     · cases h
   | discard j =>
     simp only [step] at h
     split at h
     · cases h
-      exact ⟨nodup_map_erase j h1, fun x hx => h2 x (mem_erase_of hx), h3, fun g hg x hx e => h4 g hg x (mem_erase_of hx) e⟩
+      exact ⟨nodup_map_erase j h1, fun x hx => h2 x (mem_erase_of hx), h3, fun g hg x hx e => h4 g hg x (mem_erase_of hx) e,
+             sg_mono h5 rfl (fun _ hf => hf) rfl (erase_sub j)⟩
     · cases h
   | ddone d c =>
     simp only [step] at h
     split at h
-    · cases h; exact ⟨h1, h2, h3, h4⟩
+    · cases h; exact ⟨h1, h2, h3, h4, sg_mono h5 rfl (fun _ hf => hf) rfl (fun x hx => ⟨x, hx, rfl⟩)⟩
     · cases h
   | cbCancelled d =>
     simp only [step] at h
@@ -82,7 +150,8 @@ theorem inv1_step (s : St) (a : Act) (s' : St) (hi : Inv1 s) (h : step s a = som
     · rename_i j hjd
       split at h
       · cases h
-        exact ⟨nodup_map_erase j h1, fun x hx => h2 x (mem_erase_of hx), h3, fun g hg x hx e => h4 g hg x (mem_erase_of hx) e⟩
+        exact ⟨nodup_map_erase j h1, fun x hx => h2 x (mem_erase_of hx), h3, fun g hg x hx e => h4 g hg x (mem_erase_of hx) e,
+               sg_mono h5 rfl (fun _ hf => hf) rfl (erase_sub j)⟩
       · cases h
     · cases h
   | cbPolicy d r =>
@@ -91,9 +160,9 @@ theorem inv1_step (s : St) (a : Act) (s' : St) (hi : Inv1 s) (h : step s a = som
     · split at h
       · split at h
         · split at h
-          · cases h; exact ⟨h1, h2, h3, h4⟩
+          · cases h; exact ⟨h1, h2, h3, h4, sg_mono h5 rfl (fun _ hf => hf) rfl (fun x hx => ⟨x, hx, rfl⟩)⟩
           · cases h
-        · cases h; exact ⟨h1, h2, h3, h4⟩
+        · cases h; exact ⟨h1, h2, h3, h4, sg_mono h5 rfl (fun _ hf => hf) rfl (fun x hx => ⟨x, hx, rfl⟩)⟩
       · cases h
     · cases h
   | cbRetry d =>
@@ -102,7 +171,7 @@ theorem inv1_step (s : St) (a : Act) (s' : St) (hi : Inv1 s) (h : step s a = som
     · rename_i j t hjd _
       cases h
       obtain ⟨hj, _⟩ := jobOfDel_mem hjd
-      refine ⟨nodup_erase_append h1 hj rfl, ?_, h3, ?_⟩
+      refine ⟨nodup_erase_append h1 hj rfl, ?_, h3, ?_, ?_⟩
       · intro x hx
         simp only [List.mem_append, List.mem_singleton] at hx
         cases hx with
@@ -113,23 +182,30 @@ theorem inv1_step (s : St) (a : Act) (s' : St) (hi : Inv1 s) (h : step s a = som
         cases hx with
         | inl hx => exact h4 g hg x (mem_erase_of hx) e
         | inr hx => subst hx; simp only at e; exact h4 g hg j hj e
+      · refine sg_mono h5 rfl (fun _ hf => hf) rfl ?_
+        intro x hx
+        simp only [List.mem_append, List.mem_singleton] at hx
+        cases hx with
+        | inl hx => exact ⟨x, mem_erase_of hx, rfl⟩
+        | inr hx => subst hx; exact ⟨j, hj, rfl⟩
     · cases h
   | cbFinal d =>
     simp only [step] at h
     split at h
     · rename_i j hjd _
       cases h
-      exact ⟨nodup_map_erase j h1, fun x hx => h2 x (mem_erase_of hx), h3, fun g hg x hx e => h4 g hg x (mem_erase_of hx) e⟩
+      exact ⟨nodup_map_erase j h1, fun x hx => h2 x (mem_erase_of hx), h3, fun g hg x hx e => h4 g hg x (mem_erase_of hx) e,
+             sg_mono h5 rfl (fun _ hf => hf) rfl (erase_sub j)⟩
     · cases h
   | cancelScan f =>
     simp only [step] at h
     split at h
     · rename_i hg
-      obtain ⟨hfs, _, _⟩ := hg
+      obtain ⟨hfs, _, hhold⟩ := hg
       split at h
       · rename_i hnone
         cases h
-        refine ⟨h1, h2, ?_, ?_⟩
+        refine ⟨h1, h2, ?_, ?_, sg_cancel h5 f hhold rfl rfl rfl (fun x hx => ⟨x, hx, rfl⟩)⟩
         · intro g hg; simp only [List.mem_append, List.mem_singleton] at hg
           cases hg with
           | inl hg => exact h3 g hg
@@ -143,7 +219,8 @@ theorem inv1_step (s : St) (a : Act) (s' : St) (hi : Inv1 s) (h : step s a = som
         obtain ⟨hj, hjf⟩ := jobOfFut_mem hsome
         split at h
         · cases h
-          refine ⟨nodup_map_erase j h1, fun x hx => h2 x (mem_erase_of hx), ?_, ?_⟩
+          refine ⟨nodup_map_erase j h1, fun x hx => h2 x (mem_erase_of hx), ?_, ?_,
+                  sg_cancel h5 f hhold rfl rfl rfl (erase_sub j)⟩
           · intro g hg; simp only [List.mem_append, List.mem_singleton] at hg
             cases hg with
             | inl hg => exact h3 g hg
@@ -156,7 +233,7 @@ theorem inv1_step (s : St) (a : Act) (s' : St) (hi : Inv1 s) (h : step s a = som
               subst hg
               exact absurd (e.trans hjf.symm) (fut_ne_of_mem_erase h1 hj hx)
         · cases h
-          refine ⟨?_, ?_, ?_, ?_⟩
+          refine ⟨?_, ?_, ?_, ?_, ?_⟩
           · have : (s.jobs.map (fun x => if x = j then { x with stop := true } else x)).map (·.fut) = s.jobs.map (·.fut) := by
               rw [List.map_map]; apply List.map_congr_left; intro x _; simp only [Function.comp]; split <;> rfl
             rw [this]; exact h1
@@ -179,6 +256,10 @@ theorem inv1_step (s : St) (a : Act) (s' : St) (hi : Inv1 s) (h : step s a = som
               | inr hg =>
                 subst hg
                 exact absurd (same_job_of_same_fut h1 hy hj (e.trans hjf.symm)) hyj
+          · refine sg_cancel h5 f hhold rfl rfl rfl ?_
+            intro x hx
+            obtain ⟨y, hy, rfl⟩ := List.mem_map.mp hx
+            exact ⟨y, hy, by split <;> rfl⟩
     · cases h
   | cancelDel f b =>
     simp only [step] at h
@@ -186,20 +267,20 @@ theorem inv1_step (s : St) (a : Act) (s' : St) (hi : Inv1 s) (h : step s a = som
     · split at h
       · split at h
         · cases h
-        · cases h; exact ⟨h1, h2, h3, h4⟩
-      · cases h; exact ⟨h1, h2, h3, h4⟩
+        · cases h; exact ⟨h1, h2, h3, h4, sg_mono h5 rfl (fun _ hf => hf) rfl (fun x hx => ⟨x, hx, rfl⟩)⟩
+      · cases h; exact ⟨h1, h2, h3, h4, sg_mono h5 rfl (fun _ hf => hf) rfl (fun x hx => ⟨x, hx, rfl⟩)⟩
     · cases h
   | cancelEnd f =>
     simp only [step] at h
     split at h
-    · cases h; exact ⟨h1, h2, h3, h4⟩
-    · cases h; exact ⟨h1, h2, h3, h4⟩
-    · cases h; exact ⟨h1, h2, h3, h4⟩
+    · cases h; exact ⟨h1, h2, h3, h4, sg_mono h5 rfl (fun _ hf => hf) rfl (fun x hx => ⟨x, hx, rfl⟩)⟩
+    · cases h; exact ⟨h1, h2, h3, h4, sg_mono h5 rfl (fun _ hf => hf) rfl (fun x hx => ⟨x, hx, rfl⟩)⟩
+    · cases h; exact ⟨h1, h2, h3, h4, sg_mono h5 rfl (fun _ hf => hf) rfl (fun x hx => ⟨x, hx, rfl⟩)⟩
     · cases h
   | tick t =>
     simp only [step] at h
     split at h
-    · cases h; exact ⟨h1, h2, h3, h4⟩
+    · cases h; exact ⟨h1, h2, h3, h4, sg_mono h5 rfl (fun _ hf => hf) rfl (fun x hx => ⟨x, hx, rfl⟩)⟩
     · cases h
 
 end MoreExec.Retry
